@@ -164,7 +164,16 @@ var c09Names = []string{"a", "b", "foo", "x", "", "ünï", "a b", "constructor",
 func c09Gen(t *rapid.T, rec *evid.Recorder) c09Case {
 	r := gen.R{T: t}
 	n := r.Intn(60, "nops")
+	// one history in six is long and draws its names from a large pool, most of
+	// them new, some seen before (tables that change representation with size)
+	pool := 0
+	if r.Intn(6, "long") == 0 {
+		n = 60 + r.Intn(400, "nopslong")
+		pool = []int{20, 33, 40, 70, 130, 300}[r.Intn(6, "pool")]
+		rec.Class("history:long-many-names")
+	}
 	var ops []c09Op
+	var strs []string
 	pos := func(label string) int {
 		switch r.Pick(label+"k", 6, 2, 1, 1) {
 		case 0:
@@ -187,6 +196,9 @@ func c09Gen(t *rapid.T, rec *evid.Recorder) c09Case {
 			if r.Intn(8, "rndname") == 0 {
 				name = rapid.StringN(0, 6, 12).Draw(t, "namestr")
 			}
+			if pool > 0 && r.Intn(10, "poolname") > 0 {
+				name = fmt.Sprintf("n%d", r.Intn(pool, "poolidx"))
+			}
 			ops = append(ops, c09Op{Op: "named", Line: pos("line"), Col: pos("col"), Name: name})
 		case 2:
 			ops = append(ops, c09Op{Op: "col", N: r.Intn(30, "n")})
@@ -208,6 +220,12 @@ func c09Gen(t *rapid.T, rec *evid.Recorder) c09Case {
 					s += "é中😀" + []string{"\n", "\r\n", "\r"}[r.Intn(3, "nl")]
 				}
 			}
+			if len(strs) > 0 && r.Intn(4, "again") == 0 {
+				// the same text once more, usually from another column
+				s = strs[r.Intn(len(strs), "which")]
+				rec.Class("op:str-repeated")
+			}
+			strs = append(strs, s)
 			ops = append(ops, c09Op{Op: "str", S: s})
 		case 4:
 			ops = append(ops, c09Op{Op: "line"})
